@@ -965,6 +965,29 @@ fn set_body(c: &SetCase, _ch: &Chooser) -> Outcome {
     let mut obs = String::new();
     if let Some(back) = through_headers(&mut o, &mut obs, &status, c.code as i32, msg, &want, false) {
         judge_getters(&mut o, &mut obs, &back, &want, false);
+        // the same headers as a peer that PADS its base64 would send them (receivers must accept both)
+        {
+            let mut h = HeaderMap::new();
+            if status.add_header(&mut h).is_ok() {
+                if let Some(v) = h.get("grpc-status-details-bin").cloned() {
+                    let mut padded = v.as_bytes().to_vec();
+                    while padded.len() % 4 != 0 {
+                        padded.push(b'=');
+                    }
+                    h.insert("grpc-status-details-bin", http::HeaderValue::from_bytes(&padded).unwrap());
+                    match Status::from_header_map(&h) {
+                        None => o.violate("padded-peer:readback-none", "from_header_map returned None"),
+                        Some(seen) => {
+                            let before = o.violations.len();
+                            judge_getters(&mut o, &mut obs, &seen, &want, false);
+                            for v in o.violations.iter_mut().skip(before) {
+                                v.0 = format!("padded-peer:{}", v.0);
+                            }
+                        }
+                    }
+                }
+            }
+        }
         // the same status as a unary caller receives it when the peer had already sent its response
         // headers (status in the trailers): the details must come out of the getters just the same
         if c.code != 0 {
@@ -1063,6 +1086,29 @@ fn vec_body(c: &VecCase, _ch: &Chooser) -> Outcome {
     let mut obs = String::new();
     if let Some(back) = through_headers(&mut o, &mut obs, &status, c.code as i32, msg, &want, true) {
         judge_getters(&mut o, &mut obs, &back, &want, true);
+        // the same headers as a peer that PADS its base64 would send them (receivers must accept both)
+        {
+            let mut h = HeaderMap::new();
+            if status.add_header(&mut h).is_ok() {
+                if let Some(v) = h.get("grpc-status-details-bin").cloned() {
+                    let mut padded = v.as_bytes().to_vec();
+                    while padded.len() % 4 != 0 {
+                        padded.push(b'=');
+                    }
+                    h.insert("grpc-status-details-bin", http::HeaderValue::from_bytes(&padded).unwrap());
+                    match Status::from_header_map(&h) {
+                        None => o.violate("padded-peer:readback-none", "from_header_map returned None"),
+                        Some(seen) => {
+                            let before = o.violations.len();
+                            judge_getters(&mut o, &mut obs, &seen, &want, true);
+                            for v in o.violations.iter_mut().skip(before) {
+                                v.0 = format!("padded-peer:{}", v.0);
+                            }
+                        }
+                    }
+                }
+            }
+        }
         // the same status as a unary caller receives it when the peer had already sent its response
         // headers (status in the trailers): the details must come out of the getters just the same
         if c.code != 0 {
@@ -1323,6 +1369,18 @@ fn dec_body(c: &DecCase, _ch: &Chooser) -> Outcome {
     match &c.expect {
         DecExpect::Arbitrary => {}
         DecExpect::Garbage(bad_kinds) => {
+            // the ordered list cannot be produced (one of its elements is undecodable): an error or an
+            // empty result, not a shorter list that silently leaves the undecodable detail out
+            if let Some(Ok(v)) = &chk_vec {
+                if !v.is_empty() {
+                    o.violate("undecodable-detail-silently-dropped:check_error_details_vec", format!("one detail's payload is not a protobuf message, yet check_error_details_vec returned Ok with {} detail(s) [{}]", v.len(), fmt_kinds(v)));
+                }
+            }
+            if let Some(v) = &get_vec {
+                if !v.is_empty() {
+                    o.violate("undecodable-detail-silently-dropped:get_error_details_vec", format!("one detail's payload is not a protobuf message, yet get_error_details_vec returned {} detail(s) [{}]", v.len(), fmt_kinds(v)));
+                }
+            }
             for k in bad_kinds {
                 let in_vec = matches!(&chk_vec, Some(Ok(v)) if v.iter().any(|r| r.kind() == *k));
                 let in_set = matches!(&chk_set, Some(Ok(v)) if v.iter().any(|r| r.kind() == *k));
@@ -1451,7 +1509,7 @@ pub fn property(tier: Tier) -> Property {
     let set = Section::new(
         "set-roundtrip",
         cfg.clone(),
-        "cases: every subset of the ten standard kinds (1024) x value variant {all-default, ordinary, awkward, mixed} (RetryInfo in {None, 0, 1 ns, 315 576 000 000.999999999 s}; 0..3 violations/links; empty/non-ASCII/control/200+-byte strings; ErrorInfo.metadata with 0/1/2 entries incl. empty key) x with/without metadata x {set_*, add_*} builders; code and message rotate over 17 codes x 4 messages [thorough: full product]. Path: with_error_details[_and_metadata] -> add_header -> hand-written base64+protobuf reader of grpc-status-details-bin (embedded code/message == outer, type URLs, field values) -> from_header_map -> check_/get_error_details, check_/get_error_details_vec, ten get_details_*. Non-trivial = at least one detail attached",
+        "cases: every subset of the ten standard kinds (1024) x value variant {all-default, ordinary, awkward, mixed} (RetryInfo in {None, 0, 1 ns, 315 576 000 000.999999999 s}; 0..3 violations/links; empty/non-ASCII/control/200+-byte strings; ErrorInfo.metadata with 0/1/2 entries incl. empty key) x with/without metadata x {set_*, add_*} builders; code and message rotate over 17 codes x 4 messages [thorough: full product]. Path: with_error_details[_and_metadata] -> add_header -> hand-written base64+protobuf reader of grpc-status-details-bin (embedded code/message == outer, type URLs, field values) -> from_header_map -> check_/get_error_details, check_/get_error_details_vec, ten get_details_*; the getters are judged again on the status read from the same headers with the details value base64-PADDED (a peer that pads), and on the status a unary caller receives when the peer sends it in trailers after response headers. Non-trivial = at least one detail attached",
         set_cases(tier),
         |c: &SetCase| format!("kinds={:?} var={} code={} msg={:?} md={} style={}", (0..10).filter(|k| c.mask & (1 << k) != 0).map(|k| KINDS[k]).collect::<Vec<_>>(), c.var, code_name(c.code as i32), crate::explore::truncate(MSGS[c.msg as usize], 30), c.md, c.style),
         set_body,
@@ -1480,7 +1538,7 @@ pub fn property(tier: Tier) -> Property {
     let dec = Section::new(
         "decode",
         cfg,
-        "cases: details blobs not produced by tonic-types, carried through add_header/from_header_map: (a) blobs from the hand-written protobuf encoder — canonical, with reordered fields and unknown fields of wire types 0/1/2/5, with unknown and misspelt type URLs interleaved — which must decode to exactly the encoded details; (b) standard type URL with a payload that is not a protobuf message, before/after a good detail: that kind must not come out of any getter; (c) every truncation and every single-byte substitution over {00,01,0a,7f,80,ff} of three valid blobs [thorough: thirteen, plus deletions/duplications]; (d) every byte string of length <= 2 [thorough: and lengths 3-4 over a 12-value menu]. Oracle for (c)/(d): no panic; get_* == check_*.unwrap_or_default(); when the hand-written reader finds the bytes are not a protobuf message at all, every getter returns an error or nothing. Non-trivial = blob not parseable by the independent reader, or a garbage payload, or a non-empty foreign blob",
+        "cases: details blobs not produced by tonic-types, carried through add_header/from_header_map: (a) blobs from the hand-written protobuf encoder — canonical, with reordered fields and unknown fields of wire types 0/1/2/5, with unknown and misspelt type URLs interleaved — which must decode to exactly the encoded details; (b) standard type URL with a payload that is not a protobuf message, before/after a good detail: that kind must not come out of any getter, and the list getters give an error / an empty list, not a shorter list; (c) every truncation and every single-byte substitution over {00,01,0a,7f,80,ff} of three valid blobs [thorough: thirteen, plus deletions/duplications]; (d) every byte string of length <= 2 [thorough: and lengths 3-4 over a 12-value menu]. Oracle for (c)/(d): no panic; get_* == check_*.unwrap_or_default(); when the hand-written reader finds the bytes are not a protobuf message at all, every getter returns an error or nothing. Non-trivial = blob not parseable by the independent reader, or a garbage payload, or a non-empty foreign blob",
         dec_cases(tier),
         |c: &DecCase| format!("{} blob={} expect={}", c.origin, crate::explore::truncate(&hex(&c.blob), 300), match &c.expect { DecExpect::Exactly(l) => format!("exactly {}", show(l)), DecExpect::Garbage(k) => format!("garbage kinds {k:?}"), DecExpect::Arbitrary => "arbitrary".into() }),
         dec_body,
